@@ -518,7 +518,69 @@ func cmdVerify(args []string) int {
 		if ct <= 0 {
 			ct = *timeout
 		}
-		allRes = solveAll(allFiles, allObls, *timeout, ct, *workers)
+		// vacuity queries: per unit and label one at a time, until one is satisfiable (that
+		// settles the label); the others are not asked ("cover-skipped").  All proof obligations
+		// and the first query of every label go into the first round.
+		type lk struct {
+			unit  string
+			label string
+		}
+		groups := map[lk][]int{}
+		var order []lk
+		for i, o := range allObls {
+			if o.Cover && allFiles[i] != "" {
+				k := lk{o.Unit, o.Label}
+				if _, ok := groups[k]; !ok {
+					order = append(order, k)
+				}
+				groups[k] = append(groups[k], i)
+			}
+		}
+		round := append([]string(nil), allFiles...)
+		for _, k := range order {
+			for _, i := range groups[k][1:] {
+				round[i] = ""
+			}
+		}
+		allRes = solveAll(round, allObls, *timeout, ct, *workers)
+		next := map[lk]int{}
+		for _, k := range order {
+			next[k] = 1
+			for _, i := range groups[k][1:] {
+				allRes[i] = solveResult{status: "skipped"}
+			}
+		}
+		for rnd := 0; rnd < 12; rnd++ {
+			more := make([]string, len(allFiles))
+			any := false
+			idx := map[lk]int{}
+			for _, k := range order {
+				g := groups[k]
+				settled := false
+				for _, i := range g[:next[k]] {
+					// satisfiable: the label is reachable; inconclusive: not an alarm either,
+					// and further paths would most likely be inconclusive too
+					if allRes[i].status != "unsat" {
+						settled = true
+					}
+				}
+				if settled || next[k] >= len(g) {
+					continue
+				}
+				i := g[next[k]]
+				more[i] = allFiles[i]
+				idx[k] = i
+				next[k]++
+				any = true
+			}
+			if !any {
+				break
+			}
+			r2 := solveAll(more, allObls, *timeout, ct, *workers)
+			for _, i := range idx {
+				allRes[i] = r2[i]
+			}
+		}
 	}
 	for k, pd := range pend {
 		res := allRes[offs[k] : offs[k]+len(pd.files)]
@@ -545,6 +607,8 @@ func cmdVerify(args []string) int {
 					or.Status = "cover-ok"
 				case "unsat":
 					or.Status = "cover-fail"
+				case "skipped":
+					or.Status = "cover-skipped"
 				default:
 					or.Status = "cover-unknown"
 				}
